@@ -118,4 +118,195 @@ theorem hasWord_append (w a b : Text) (h : endsNonWord a = true ∨ startsNonWor
     hasWord w (a ++ b) = (hasWord w a || hasWord w b) := by
   simp [hasWord, tokens_append a b h]
 
+/-! ## the emitted block, per backend -/
+
+/-- the property-level view of a model specification -/
+def declOf (c : CollSpec) : Decl :=
+  { name := c.name, includes := c.includes, container := c.container, element := c.element,
+    elemPtr := c.element.isSome && c.depthElem != 0, libraries := c.libraries }
+
+theorem paramName_word : paramName.all isWordChar = true := by decide
+theorem paramName_ne : paramName ≠ [] := by decide
+
+theorem substWord_sandwich (w r pre post : Text) (hw : w.all isWordChar = true) (hne : w ≠ [])
+    (h1 : endsNonWord pre = true) (h2 : startsNonWord post = true)
+    (hp : hasWord w pre = false) (hq : hasWord w post = false) :
+    substWord w r (pre ++ w ++ post) = pre ++ r ++ post := by
+  rw [List.append_assoc, substWord_append _ _ _ _ (Or.inl h1), substWord_append _ _ _ _ (Or.inr h2),
+    substWord_noWord _ _ _ hp, substWord_noWord _ _ _ hq, substWord_self _ _ hw hne, List.append_assoc]
+
+theorem hasWord_sandwich (w pre mid post : Text)
+    (h1 : endsNonWord pre = true) (h2 : startsNonWord post = true)
+    (hp : hasWord w pre = false) (hq : hasWord w post = false) (hm : hasWord w mid = false) :
+    hasWord w (pre ++ mid ++ post) = false := by
+  rw [List.append_assoc, hasWord_append _ _ _ (Or.inl h1), hasWord_append _ _ _ (Or.inr h2), hp, hq, hm]; rfl
+
+theorem stmtLine_semicolon (a : Text) : stmtLine (a ++ [';']) = a ++ [';'] := by
+  simp [stmtLine]
+
+/-- what `get_collection` builds for a well-shaped call -/
+def mkCV (cd : CoderInfo) (c : CollSpec) (bank : Text) (n : Nat) : CodeValue :=
+  let tok : Text := match cd.tokenPrefix with
+    | none => []
+    | some p => if cd.tokenPerUse then uniqueName p n else uniqueName p 0
+  { spec := c, bank,
+    runningCode := cd.runningCode.map (render [(t!"container_type", c.tyStr), (t!"self.t_name", tok)]),
+    fields := match cd.tokenInit, c.tokenTypeStr with
+      | some init, some tt => [(tt, tok, render [(t!"md.container_type.type", c.container)] init)]
+      | some init, none => [(t!"None", tok, render [(t!"md.container_type.type", c.container)] init)]
+      | none, _ => [],
+    token := tok }
+
+theorem getCollection_str (cd : CoderInfo) (c : CollSpec) (s : Text) (n : Nat) :
+    getCollection cd c [.str s] n = .ok (mkCV cd c s n, if cd.tokenPerUse then n + 1 else n) := rfl
+
+theorem getCollection_ok_iff (cd : CoderInfo) (c : CollSpec) (args : List Arg) (n : Nat) :
+    (∃ r, getCollection cd c args n = .ok r) ↔ CallOk args := by
+  constructor
+  · rintro ⟨r, h⟩
+    match args, h with
+    | [.str s], _ => exact ⟨s, rfl⟩
+    | [], h => simp [getCollection] at h
+    | [.other], h => simp [getCollection] at h
+    | _ :: _ :: _, h => simp [getCollection] at h
+  · rintro ⟨s, rfl⟩; exact ⟨_, getCollection_str cd c s n⟩
+
+/-- the model's handle text is the property's, the token type too; pointer depths are the backend's -/
+structure ClassOk (b : Backend) (c : CollSpec) : Prop where
+  ty : c.tyStr = expectedTy b (declOf c)
+  tok : b = .cmsMiniaod → c.tokenTypeStr = some (t!"edm::EDGetTokenT<" ++ c.container ++ t!">")
+  depthType : c.depthType = 1
+
+theorem lookupHole_head (n : Text) (t : Text) (env : List (Text × Text)) : lookupHole ((n, t) :: env) n = t := by
+  simp [lookupHole, List.find?]
+
+theorem lookupHole_tail (n n' : Text) (t : Text) (env : List (Text × Text)) (h : (n' == n) = false) :
+    lookupHole ((n', t) :: env) n = lookupHole env n := by
+  simp [lookupHole, List.find?, h]
+
+theorem stmtLine_append (a b : Text) (h : b.getLast? = some ';') : stmtLine (a ++ b) = a ++ b := by
+  simp [stmtLine, List.getLast?_append, h]
+
+/-- a line `<type> <concrete rest>` is left alone by the substitution of the bank -/
+theorem line_type_rest (lit ty rest : Text) (hty : hasWord paramName ty = false)
+    (h1 : startsNonWord rest = true) (h2 : hasWord paramName rest = false) (h3 : rest.getLast? = some ';') :
+    stmtLine (substWord paramName lit (ty ++ rest)) = ty ++ rest := by
+  rw [substWord_append _ _ _ _ (Or.inr h1), substWord_noWord _ _ _ hty, substWord_noWord _ _ _ h2, stmtLine_append _ _ h3]
+
+/-- a concrete line `pre collection_name post` gets the bank exactly there -/
+theorem line_param (lit pre post : Text) (h1 : endsNonWord pre = true) (h2 : startsNonWord post = true)
+    (hp : hasWord paramName pre = false) (hq : hasWord paramName post = false) (h3 : post.getLast? = some ';') :
+    stmtLine (substWord paramName lit (pre ++ paramName ++ post)) = pre ++ lit ++ post := by
+  rw [substWord_sandwich _ _ _ _ paramName_word paramName_ne h1 h2 hp hq, stmtLine_append _ _ h3]
+
+theorem assign_line (x : Text) : x ++ t!" = " ++ resultName ++ [';'] = x ++ t!" = result;" := by
+  rw [List.append_assoc, List.append_assoc]
+  congr 1
+
+theorem hasWord_expectedTy (b : Backend) (d : Decl) (h : hasWord paramName d.container = false) :
+    hasWord paramName (expectedTy b d) = false := by
+  unfold expectedTy
+  cases b <;> cases d.element <;> simp only [] <;>
+  · apply hasWord_sandwich <;> first | decide | exact h
+
+/-- ATLAS: the block that `process_ast_node` emits for a well-shaped call -/
+theorem frag_atlas (c : CollSpec) (bank : Text) (n : Nat) (st : GenState) (hc : ClassOk .atlas c)
+    (hclean : hasWord paramName c.container = false) :
+    let f := (processNode (mkCV Gen.atlasCoder c bank n) st).1
+    f.lines = expectedLines .atlas (expectedTy .atlas (declOf c)) (cppLit bank) f.tok f.var ∧
+    f.decl = expectedDecl (expectedTy .atlas (declOf c)) f.var ∧ f.tok = [] := by
+  have hcleanTy := hasWord_expectedTy .atlas (declOf c) hclean
+  simp only [processNode, mkCV, Gen.atlasCoder, List.map_cons, List.map_nil, render, lookupHole_head, List.append_nil, hc.ty]
+  refine ⟨?_, rfl, trivial⟩
+  rw [line_type_rest _ _ _ hcleanTy (by decide) (by decide) (by decide)]
+  rw [show t!"ANA_CHECK (evtStore()->retrieve(result, collection_name));" =
+      t!"ANA_CHECK (evtStore()->retrieve(result, " ++ paramName ++ t!"));" from by decide]
+  rw [line_param _ _ _ (by decide) (by decide) (by decide) (by decide) (by decide), assign_line]
+  rfl
+
+/-- CMS AOD -/
+theorem frag_cmsAod (c : CollSpec) (bank : Text) (n : Nat) (st : GenState) (hc : ClassOk .cmsAod c)
+    (hclean : hasWord paramName c.container = false) :
+    let f := (processNode (mkCV Gen.cmsAodCoder c bank n) st).1
+    f.lines = expectedLines .cmsAod (expectedTy .cmsAod (declOf c)) (cppLit bank) f.tok f.var ∧
+    f.decl = expectedDecl (expectedTy .cmsAod (declOf c)) f.var ∧ f.tok = [] := by
+  have hcleanTy := hasWord_expectedTy .cmsAod (declOf c) hclean
+  simp only [processNode, mkCV, Gen.cmsAodCoder, List.map_cons, List.map_nil, render, lookupHole_head, List.append_nil, hc.ty]
+  refine ⟨?_, rfl, trivial⟩
+  rw [line_type_rest _ _ _ hcleanTy (by decide) (by decide) (by decide)]
+  rw [show t!"iEvent.getByLabel(collection_name, result);" =
+      t!"iEvent.getByLabel(" ++ paramName ++ t!", result);" from by decide]
+  rw [line_param _ _ _ (by decide) (by decide) (by decide) (by decide) (by decide), assign_line]
+  rfl
+
+
+theorem isWordChar_of_isDigit {c : Char} (h : c.isDigit = true) : isWordChar c = true := by
+  simp [isWordChar, Char.isAlphanum, h]
+
+theorem digits_all_word (n : Nat) : (digits n).all isWordChar = true := by
+  simp only [List.all_eq_true, digits]
+  intro c hc
+  exact isWordChar_of_isDigit (Nat.isDigit_of_mem_toDigits (by omega) (by omega) hc)
+
+theorem digits_ne_nil (n : Nat) : digits n ≠ [] := Nat.toDigits_ne_nil
+
+theorem endsNonWord_append (a b : Text) (hb : b ≠ []) : endsNonWord (a ++ b) = endsNonWord b := by
+  cases hr : b.reverse with
+  | nil => simp at hr; exact absurd hr hb
+  | cons c t => simp [endsNonWord, hr, startsNonWord]
+
+/-- the token of a miniAOD use -/
+def tokenName (n : Nat) : Text := uniqueName (t!"token") n
+
+theorem tokenName_word (n : Nat) : (tokenName n).all isWordChar = true := by
+  simp only [tokenName, uniqueName, List.all_append, digits_all_word, Bool.and_true]; decide
+
+theorem hasWord_tokenName (n : Nat) : hasWord paramName (tokenName n) = false := by
+  have h1 : tokenName n = 't' :: (['o', 'k', 'e', 'n'] ++ digits n) := by
+    simp only [tokenName, uniqueName, tx, String.reduceToList, List.cons_append, List.nil_append]
+  have h2 : paramName = 'c' :: t!"ollection_name" := by decide
+  have hne : tokenName n ≠ [] := by rw [h1]; exact List.cons_ne_nil _ _
+  rw [hasWord_false_iff, tokens_word _ (tokenName_word n) hne, List.mem_singleton, h1, h2]
+  intro h
+  exact absurd (List.cons.inj h).1 (by decide)
+
+theorem tx_eq (s : String) : tx s = s.toList := rfl
+theorem paramName_eq : paramName = t!"collection_name" := rfl
+theorem resultName_eq : resultName = t!"result" := rfl
+
+/-- closes equalities between append chains of literals and variables -/
+macro "text_eq" : tactic =>
+  `(tactic| simp only [paramName_eq, resultName_eq, List.append_assoc, List.cons_append, List.nil_append])
+
+/-- CMS miniAOD -/
+theorem frag_cmsMiniaod (c : CollSpec) (bank : Text) (n : Nat) (st : GenState) (hc : ClassOk .cmsMiniaod c)
+    (hclean : hasWord paramName c.container = false) :
+    let r := processNode (mkCV Gen.cmsMiniaodCoder c bank n) st
+    r.1.lines = expectedLines .cmsMiniaod (expectedTy .cmsMiniaod (declOf c)) (cppLit bank) r.1.tok r.1.var ∧
+    r.1.decl = expectedDecl (expectedTy .cmsMiniaod (declOf c)) r.1.var ∧ r.1.tok = tokenName n ∧
+    r.2.classDecls = st.classDecls ++ [expectedTokenDecl (declOf c) (tokenName n)] ∧
+    r.2.book = st.book ++ [expectedTokenInit (declOf c) (cppLit bank) (tokenName n)] := by
+  have hcleanTy := hasWord_expectedTy .cmsMiniaod (declOf c) hclean
+  have htt := hc.tok rfl
+  simp only [processNode, mkCV, Gen.cmsMiniaodCoder, List.map_cons, List.map_nil, render, lookupHole_head,
+    lookupHole_tail _ _ _ _ (show (t!"container_type" == t!"self.t_name") = false from by decide),
+    List.append_nil, hc.ty, htt, if_true]
+  refine ⟨?_, rfl, rfl, ?_, ?_⟩
+  · rw [line_type_rest _ _ _ hcleanTy (by decide) (by decide) (by decide)]
+    have h2 : hasWord paramName (t!"iEvent.getByToken(" ++ tokenName n ++ t!", result);") = false :=
+      hasWord_sandwich _ _ _ _ (by decide) (by decide) (by decide) (by decide) (hasWord_tokenName n)
+    have e : t!"iEvent.getByToken(" ++ (uniqueName t!"token" n ++ t!", result);") =
+        t!"iEvent.getByToken(" ++ tokenName n ++ t!", result);" := by
+      simp only [tokenName, tx, List.append_assoc]
+    rw [e, substWord_noWord _ _ _ h2, stmtLine_append _ _ (show (t!", result);").getLast? = some ';' from by decide), assign_line]
+    rfl
+  · simp only [expectedTokenDecl, declOf, tokenName]; text_eq
+  · have e : t!"consumes<" ++ (c.container ++ t!">(edm::InputTag(collection_name))") =
+        (t!"consumes<" ++ c.container ++ t!">(edm::InputTag(") ++ paramName ++ t!"))" := by text_eq
+    have hpre : hasWord paramName (t!"consumes<" ++ c.container ++ t!">(edm::InputTag(") = false :=
+      hasWord_sandwich _ _ _ _ (by decide) (by decide) (by decide) (by decide) hclean
+    rw [e, substWord_sandwich _ _ _ _ paramName_word paramName_ne
+      (by rw [endsNonWord_append _ _ (by decide)]; decide) (by decide) hpre (by decide)]
+    simp only [expectedTokenInit, declOf, tokenName]; text_eq
+
 end FaxVerif.C06
